@@ -111,7 +111,7 @@ def directory_oracle(case, impl, check_trace=True, check_dir=True):
                 fails.append({"site": "dir:unit-class", "msg": f"{m['sym']}: {out}"})
             want_eq = "none" if u["scale"] is None else u["scale"]
             if out.startswith("ok ") and f"equiv={want_eq} " not in out:
-                fails.append({"site": "dir:scale", "msg":
+                fails.append({"site": "dir:scale:zero-definition" if want_eq == "0" else "dir:scale", "msg":
                               f"{m['sym']}: {out}, definition denotes {want_eq}"})
         elif k == "q_mk" and check_dir:
             want = f":{world['units'][m['sym']]['cls']}"
@@ -136,7 +136,9 @@ def directory_oracle(case, impl, check_trace=True, check_dir=True):
             extra = set(units) - set(want_units)
             missing = set(want_units) - set(units)
             wrong = {s for s in set(units) & set(want_units) if units[s] != want_units[s]}
-            fails.append({"site": "dir:symbols", "msg":
+            zero_only = not extra and not missing and all(
+                want_units[s][1] == 0 and units[s][0] == want_units[s][0] for s in wrong)
+            fails.append({"site": "dir:scale:zero-definition" if zero_only else "dir:symbols", "msg":
                           f"extra={sorted(extra)} missing={sorted(missing)} "
                           f"wrong={[(s, units[s], want_units[s]) for s in sorted(wrong)]}"})
         for n, c in world["classes"].items():
